@@ -65,8 +65,18 @@ def run(ctx):
     ctx.rule("C08.c", "every FloatToInt cast, and every int cast into i16 from a wider type, in "
              "mach::* is dominated by a lower and an upper range test of the same source value "
              "against the target type's bounds, and the function can construct OVERFLOW")
+    ctx.rule("C08.e", "a floating point value is range-tested and converted at its own precision: "
+             "the source of every float->integer cast has no narrowing float conversion in its "
+             "def-use back-slice (no f64->f32 cast, no <f32 as TryFrom<Val>>::try_from), so a "
+             "Double near a limit is not rounded onto it before the test")
     fns = scope(ctx)
     ctx.touch(*fns)
+    n_e = 0
+    for f in fns:
+        if f.path.startswith("lang::") or f.path.startswith("<lang::"):
+            continue
+        n_e += rule_e(ctx, f)
+    ctx.floor("C08.e", "float->integer casts", n_e, 4)
     n_sites = 0
     for f in fns:
         n_sites += rule_a(ctx, f)
@@ -392,6 +402,31 @@ def rule_c(ctx, f):
                                                       if not y) or "",
                                             "" if "Overflow" in codes
                                             else " an OVERFLOW error path"))
+    return n
+
+
+NARROWING = re.compile(r"^(cast:FloatToFloat:f64->f32|"
+                       r"<f32 as std::convert::TryFrom<mach::val::Val>>::try_from)$")
+
+
+def rule_e(ctx, f):
+    n = 0
+    ordn = {}
+    for b, i, st in f.assigns():
+        rv = st["rv"]
+        if rv["k"] != "cast" or rv["kind"] != "FloatToInt":
+            continue
+        n += 1
+        tag = "%s->%s" % (rv["from"], rv["to"])
+        ordn[tag] = ordn.get(tag, 0) + 1
+        key = "%s/precision:%s#%d" % (f.path, tag, ordn[tag])
+        names = f.back_slice_calls(rv["op"])
+        bad = sorted(x for x in names if NARROWING.match(x))
+        ctx.check(not bad, "C08.e", key, st["span"], "converted at the value's own precision",
+                  "the value cast to %s went through %s first: a Double within float rounding "
+                  "distance of a limit (or of a whole number) is rounded before the floor and the "
+                  "range test, so -32768.001# is accepted and 32767.999# overflows"
+                  % (rv["to"], bad))
     return n
 
 
